@@ -735,6 +735,46 @@ func init() {
 		a[0] = int64(0x42)
 		return a
 	})
+	reg(modPath+"/common/utils/uid.New", func(w *World, th *Thread, fn *ssa.Function, args []Value) Value {
+		n, _ := w.userData["uid"].(int)
+		n++
+		w.userData["uid"] = n
+		return fmt.Sprintf("2verifUID%02d", n)
+	})
+	reg(modPath+"/common/utils/uid.FromString", func(w *World, th *Thread, fn *ssa.Function, args []Value) Value {
+		return Tuple{args[0], Iface{}}
+	})
+	// mergo.Merge(&map, map, mergo.WithOverride): every entry of src replaces dst's (the same 3-line model
+	// is compared natively with the real library on every run of the C14 check)
+	reg("dario.cat/mergo.Merge", func(w *World, th *Thread, fn *ssa.Function, args []Value) Value {
+		dst, ok1 := args[0].(Iface)
+		src, ok2 := args[1].(Iface)
+		opts, _ := args[2].(Slice)
+		if !ok1 || !ok2 || len(opts.a) != 1 {
+			panic(w.unsupported("mergo.Merge: only (&map, map, WithOverride) is modelled"))
+		}
+		dp, ok1 := dst.v.(Ptr)
+		sm, ok2 := src.v.(*Map)
+		if !ok1 || !ok2 || dp == nil {
+			panic(w.unsupported("mergo.Merge on %s / %s: only maps are modelled", show(dst.v), show(src.v)))
+		}
+		dm, ok := (*dp).(*Map)
+		if !ok {
+			panic(w.unsupported("mergo.Merge destination is not a map"))
+		}
+		if sm == nil || len(sm.entries) == 0 {
+			return Iface{}
+		}
+		if dm == nil {
+			dm = newMap(sm.kt, sm.vt)
+			*dp = dm
+		}
+		for _, e := range sm.entries {
+			w.mapStore(dm, e.k, copyVal(e.v))
+		}
+		w.stubsSeen["model:mergo.Merge(map,WithOverride)"] = true
+		return Iface{}
+	})
 	registerTimeIntrinsics(reg)
 	registerContextIntrinsics(reg)
 	registerStringIntrinsics(reg)
